@@ -52,7 +52,16 @@ pub(crate) fn add_float_mod<W, R, T>(
             if b.is_zero() {
                 xerr(ManagedXError::new("modulo by zero", rt)?)
             } else {
-                let ret = xraise!(XValue::float(((a % b) + b) % b, &rt)?);
+                // (a % b + b) % b would overflow for large operands and round a small remainder away
+                let rem = a % b;
+                let rem = if rem == 0.0 {
+                    0.0_f64.copysign(*b)
+                } else if (rem < 0.0) != (*b < 0.0) {
+                    rem + b
+                } else {
+                    rem
+                };
+                let ret = xraise!(XValue::float(rem, &rt)?);
                 Ok(ManagedXValue::new(ret, rt)?.into())
             }
         }),
